@@ -3,6 +3,7 @@ import Bermuda.Model.Ops
 import Bermuda.Model.AllOps
 import Bermuda.Model.AllOps2
 import Bermuda.Model.AllOps3
+import Bermuda.Model.AllOpsOrder
 import Bermuda.Spec.C01
 open Lean Bermuda
 
@@ -417,6 +418,17 @@ def handle (j : Json) : Except String Json := do
                        ("lt", Json.arr (cmps.map fun r => Json.arr (r.map Json.bool).toArray).toArray)]
   | "spec" =>
     return Json.mkObj [("spec", ← specJson j)]
+  | "ltPartial" =>
+    -- `Metadata.__lt__` as the partial comparison it is: "lt" / "eq" / "gt" / "TypeError" for every ordered pair,
+    -- the decidable domain predicate, and (for one cell per metadata) the constructor's domain predicate
+    let ms ← (← (← j.getObjVal? "metas").getArr?).toList.mapM Metadata.fromJson
+    let enc : Except Err Ordering → Json
+      | .ok .lt => "lt" | .ok .eq => "eq" | .ok .gt => "gt" | .error e => Json.str e.name
+    let cells : List Cell := ms.map fun m => { ps := ⟨2020, 1, 1⟩, pe := ⟨2020, 12, 31⟩, ev := ⟨2020, 12, 31⟩, md := m }
+    return Json.mkObj [
+      ("cmp", Json.arr (ms.map fun a => Json.arr (ms.map fun b => enc (Metadata.cmp? a b)).toArray).toArray),
+      ("comparable", Json.arr (ms.map fun a => Json.arr (ms.map fun b => Json.bool (a.detailKindsComparable b)).toArray).toArray),
+      ("cellsComparable", Json.bool (cellsComparable cells))]
   | "chain" =>
     let cells ← cellsFromJson (← j.getObjVal? "cells")
     let ops ← (← (← j.getObjVal? "ops").getArr?).toList.mapM opFromJson
